@@ -232,6 +232,217 @@ theorem refs_exist_rows_partial (dl : Str) (hkS hkC : List (Str × List Str))
       exact hcf o ho _ (by simp))
   exact ⟨C07.refs_exist _ hw.1 hw.2, C07.holds_out _ hw.1 hw.2⟩
 
+/-! ### effective text: what a language shows for a translated label is the cell typed for it -/
+
+theorem flattenL_leaves (pre : Str) (hid : Bool) (qs : List (Str × Kvs)) :
+    flattenL pre hid (qs.map fun q => Elem.node (rowElem q.1 q.2) []) =
+      qs.map fun q => (⟨pre ++ '/' :: q.1, rowElem q.1 q.2, hid⟩ : Itext.Flat) := by
+  induction qs with
+  | nil => simp [flattenL]
+  | cons q rest ih =>
+    simp only [List.map_cons, flattenL, flatten, ih, List.append_nil, List.cons_append, List.nil_append]
+    congr 2
+    simp [rowElem]
+
+theorem flats_sheet (dl : Str) (qs : List (Str × Kvs)) (ls : List (Str × List Kvs)) :
+    flats (sheetSurvey dl qs ls) =
+      qs.map fun q => (⟨"/data".toList ++ '/' :: q.1, rowElem q.1 q.2, false⟩ : Itext.Flat) := by
+  simp only [flats, sheetSurvey, rootD, rootKids]
+  exact flattenL_leaves _ _ qs
+
+theorem path_mediaEnts {dl p : Str} {m : Media} {e : Ent} (h : e ∈ mediaEnts dl p m) : e.path = p := by
+  unfold mediaEnts at h
+  obtain ⟨kv, _, hin⟩ := List.mem_flatMap.mp h
+  exact path_entsOf hin
+
+theorem path_optEntries {dl id : Str} {o : Opt} {e : Ent} (h : e ∈ optEntries dl id o) : e.path = id := by
+  unfold optEntries at h
+  rcases List.mem_append.mp h with h | h
+  · split at h
+    · exact path_entsOf h
+    · cases h
+  · split at h
+    · split at h
+      · exact path_mediaEnts h
+      · cases h
+    · cases h
+
+theorem path_optsEntries {dl name : Str} : ∀ {os : List Opt} {k : Nat} {e : Ent},
+    e ∈ optsEntries dl name k os → ∃ i, e.path = choiceId name i
+  | [], _, _, h => by simp [optsEntries] at h
+  | _ :: os, k, e, h => by
+    simp only [optsEntries, List.mem_append] at h
+    rcases h with h | h
+    · exact ⟨k, path_optEntries h⟩
+    · exact path_optsEntries h
+
+theorem path_choiceEntries {dl : Str} {lists : List CList} {e : Ent} (h : e ∈ choiceEntries dl lists) :
+    ∃ nm i, e.path = choiceId nm i := by
+  unfold choiceEntries at h
+  obtain ⟨l, _, hin⟩ := List.mem_flatMap.mp h
+  split at hin
+  · obtain ⟨i, hi⟩ := path_optsEntries hin
+    exact ⟨l.name, i, hi⟩
+  · cases hin
+
+/-- the leaf assignments of an element without bind messages and media: its label dict under `…:label`,
+everything else under `…:hint` -/
+theorem elemEntries_textonly {dl X : Str} {d : ElemD} {hid : Bool} {e : Ent} (hm : d.msgs = []) (hmed : d.media = none)
+    (h : e ∈ elemEntries dl ⟨X, d, hid⟩) :
+    (∃ pairs, d.label = .dict pairs ∧ e ∈ entsOf dl (path X "label") "long".toList (.dict pairs))
+      ∨ e.path = path X "hint" := by
+  simp only [elemEntries, List.mem_append] at h
+  rcases h with ((((h | h) | h) | h) | h) | h
+  · simp [msgEntries, msgOf, hm, lookup, msgUsesItext] at h
+  · simp [msgEntries, msgOf, hm, lookup, msgUsesItext] at h
+  · simp [msgEntries, msgOf, hm, lookup, msgUsesItext] at h
+  · left
+    cases hl : d.label with
+    | none => rw [hl] at h; cases h
+    | str t =>
+      rw [hl] at h
+      simp only [needsItextRef, hl, Txt.isDict, hmed, mediaTruthy, Bool.or_self, Bool.false_and] at h
+      cases h
+    | dict pairs => rw [hl] at h; exact ⟨pairs, rfl, h⟩
+  · right
+    split at h
+    · exact path_entsOf h
+    · split at h
+      · exact path_entsOf h
+      · cases h
+    · cases h
+  · right
+    split at h
+    · exact path_entsOf h
+    · split at h
+      · exact path_entsOf h
+      · cases h
+    · cases h
+
+theorem elemEntries_row {dl X n : Str} {out : Kvs} {hid : Bool} {e : Ent}
+    (h : e ∈ elemEntries dl ⟨X, rowElem n out, hid⟩) :
+    (∃ m, out.get "label".toList = .dict m ∧ ∃ k ∈ m.keys, e = ⟨k, path X "label", "long".toList, strOf (m.get k)⟩)
+      ∨ e.path = path X "hint" := by
+  rcases elemEntries_textonly (d := rowElem n out) rfl rfl h with ⟨pairs, hp, hin⟩ | hh
+  · left
+    have hlab : (rowElem n out).label = txtOfV (out.get "label".toList) := rfl
+    rw [hlab] at hp
+    cases hv : out.get "label".toList with
+    | none => rw [hv] at hp; cases hp
+    | str t => rw [hv] at hp; cases hp
+    | dict m =>
+      rw [hv] at hp
+      simp only [txtOfV, Txt.dict.injEq] at hp
+      subst hp
+      refine ⟨m, rfl, ?_⟩
+      simp only [entsOf, langsOf, List.mem_map] at hin
+      obtain ⟨lb, ⟨k, hk, rfl⟩, rfl⟩ := hin
+      exact ⟨k, hk, rfl⟩
+  · exact Or.inr hh
+
+theorem pair_unique {α} : ∀ {qs : List (Str × α)} {n : Str} {a b : α}, (qs.map (·.1)).Nodup →
+    (n, a) ∈ qs → (n, b) ∈ qs → a = b
+  | [], _, _, _, _, h, _ => by cases h
+  | q :: rest, n, a, b, hn, ha, hb => by
+    simp only [List.map_cons, List.nodup_cons] at hn
+    rcases List.mem_cons.mp ha with ha | ha <;> rcases List.mem_cons.mp hb with hb | hb
+    · rw [← ha] at hb; exact (Prod.mk.inj hb).2.symm
+    · exact absurd (List.mem_map.mpr ⟨(n, b), hb, by rw [← ha]⟩) hn.1
+    · exact absurd (List.mem_map.mpr ⟨(n, a), ha, by rw [← hb]⟩) hn.1
+    · exact pair_unique hn.2 ha hb
+
+/-- **effective text of a translated label (itext layer)**: in a flat form with distinct question names, the value
+filed for language `l` under the label id of question `n` is the entry for `l` of the label dict of `n`'s grouped
+row — no other row, no hint, message or choice writes there (by the injectivity of the id rendering), and
+padding does not overwrite it. -/
+theorem effective_label (dl : Str) (qs : List (Str × Kvs)) (ls : List (Str × List Kvs))
+    (hn : (qs.map (·.1)).Nodup) {n : Str} {out m : Kvs} {l : Str}
+    (hq : (n, out) ∈ qs) (hv : out.get "label".toList = .dict m) (hl : l ∈ m.keys) :
+    valueAt (table (sheetSurvey dl qs ls)) l (path ("/data".toList ++ '/' :: n) "label") "long".toList
+      = some (strOf (m.get l)) := by
+  let x := sheetSurvey dl qs ls
+  let X := "/data".toList ++ '/' :: n
+  let e : Ent := ⟨l, path X "label", "long".toList, strOf (m.get l)⟩
+  have hf : (⟨X, rowElem n out, false⟩ : Itext.Flat) ∈ flats x := by
+    rw [flats_sheet]; exact List.mem_map.mpr ⟨(n, out), hq, rfl⟩
+  have he : e ∈ C07.ents x := by
+    apply C07.mem_ents_of_elem hf (by simp [visited, rowElem])
+    apply List.mem_append.mpr; left
+    simp only [elemEntries, List.mem_append]
+    refine Or.inl (Or.inl (Or.inr ?_))
+    simp only [rowElem, hv, txtOfV, entsOf, langsOf, List.mem_map]
+    exact ⟨(l, strOf (m.get l)), ⟨l, hl, rfl⟩, rfl⟩
+  have hag : ∀ e' ∈ C07.ents x, sameKey e e' → e'.text = e.text := by
+    intro e' he' hk
+    have hp : e'.path = path X "label" := hk.2.1.symm
+    simp only [C07.ents, entries, List.mem_append] at he'
+    rcases he' with (he' | he') | he'
+    · obtain ⟨nm, i, hc⟩ := path_choiceEntries he'
+      exact absurd (hc.symm.trans hp) (choiceId_ne_path nm i X (by decide))
+    · obtain ⟨f', hf', hin⟩ := List.mem_flatMap.mp he'
+      have hf'' := (List.mem_filter.mp hf').1
+      rw [flats_sheet] at hf''
+      obtain ⟨q', hq', rfl⟩ := List.mem_map.mp hf''
+      rcases elemEntries_row hin with ⟨m', hv', k, _, rfl⟩ | hh
+      · have hx := (path_inj (by decide) (by decide) hp).1
+        have hnn : q'.1 = n := by
+          have := List.append_cancel_left hx
+          exact (List.cons.inj this).2
+        have hoo : q'.2 = out := pair_unique hn (by rw [← hnn]; exact hq') hq
+        rw [hoo, hv] at hv'
+        cases hv'
+        have hkl : k = l := hk.1.symm
+        subst hkl
+        rfl
+      · have := (path_inj (by decide) (by decide) (hh.symm.trans hp)).2
+        exact absurd this (by decide)
+    · obtain ⟨f', hf', hin⟩ := List.mem_flatMap.mp he'
+      have hf'' := (List.mem_filter.mp hf').1
+      rw [flats_sheet] at hf''
+      obtain ⟨q', _, rfl⟩ := List.mem_map.mp hf''
+      simp [mediaEntries, rowElem] at hin
+  have h1 := valueAt_setup_agree he hag
+  exact valueAt_pad x.lists _ _ _ _ _ h1
+
+theorem mem_keys_of_get : ∀ {m : Kvs} {l t : Str}, m.get l = .str t → l ∈ m.keys
+  | .nil, _, _, h => by simp [Kvs.get] at h
+  | .cons k v rest, l, t, h => by
+    by_cases hk : l = k
+    · simp [Kvs.keys, hk]
+    · simp only [Kvs.get, hk, if_false] at h
+      simp [Kvs.keys, mem_keys_of_get h]
+
+/-- **C08 ∘ C07 (partial: translated `label` column of a flat form)**: for a question row as typed — `label` cells
+in any number of languages and any column order — if the label column ends up translated (a dict) and C08's
+reading of the cells (`specRead`: the cell suffixed with the language, else for the default language the
+unsuffixed cell) gives `t` for language `l`, then `t` is exactly what the final translation table holds for
+`l` under that question's label id.  Gap to the full effective-text statement: hint/guidance/messages/media and
+choices analogously; nested sections; the untranslated case (inline label, no itext) is C08's alone. -/
+theorem effective_text_rows_partial (dl : Str) (hk : List (Str × List Str)) (qs : List (Str × Kvs))
+    (ls : List (Str × List Kvs)) (hn : (qs.map (·.1)).Nodup) {n : Str} {row : List (Str × Str)} {out m : Kvs}
+    (hrow : RowOk dl hk textCols row) (hout : processRow dl hk row = .ok out) (hq : (n, out) ∈ qs)
+    (hv : out.get "label".toList = .dict m) {l t : Str}
+    (hspec : specRead dl (colCells hk "label".toList row) l = some t) :
+    valueAt (table (sheetSurvey dl qs ls)) l (path ("/data".toList ++ '/' :: n) "label") "long".toList = some t := by
+  obtain ⟨out', hout', hget⟩ := row_grouping dl hk row .nil hrow.headers hrow.noClash
+  have hoo : out' = out := by
+    have : processRow dl hk row = .ok out' := hout'
+    rw [hout] at this; exact (Except.ok.inj this).symm
+  subst hoo
+  have hcol : out'.get "label".toList = colVal dl .none (colCells hk "label".toList row) := by
+    rw [hget, colFold_eq_colVal dl hk _ row _ (hrow.oneLevel _ (by simp [textCols]))]
+    simp [Kvs.get]
+  have hread := column_reading dl (colCells hk "label".toList row)
+    (colCells_texts hk _ row hrow.nonEmpty) (hrow.distinct _ (by simp [textCols])) l
+  rw [← hcol, hv, hspec] at hread
+  have hget_l : m.get l = .str t := by
+    simp only [readLang] at hread
+    split at hread
+    · next t' ht' => cases hread; exact ht'
+    · cases hread
+  rw [effective_label dl qs ls hn hq hv (mem_keys_of_get hget_l), hget_l]
+  rfl
+
 /-! ### `RowOk` as a decidable check (used for the non-vacuity example; evaluable on any concrete row) -/
 
 def noClashFrom (dk : Str) (hk : List (Str × List Str)) (out : Kvs) :
@@ -337,5 +548,24 @@ example :
        let x := sheetSurvey "default".toList (["a".toList, "b".toList].zip so) [("yn".toList, co)]
        (C07.refs x).length == 5 && (out x).translations.length == 3
      | _, _ => false) = true := by decide +kernel
+
+/-- non-vacuity of `effective_text_rows_partial`: the first example row (columns `label::fr`, `label`, …) is `RowOk`,
+its label column ends up a dict, the spec reads `Qfr` for `fr` and `Q` for the default language, and that is what
+the final table holds under `/data/a:label` -/
+example :
+    (match srowsEx.head? with
+     | some row =>
+       rowOkB "default".toList hkSEx textCols row &&
+       (match processRow "default".toList hkSEx row with
+        | .ok o =>
+          (match o.get "label".toList with | .dict _ => true | _ => false) &&
+          specRead "default".toList (colCells hkSEx "label".toList row) "fr".toList == some "Qfr".toList &&
+          specRead "default".toList (colCells hkSEx "label".toList row) "default".toList == some "Q".toList &&
+          valueAt (table (sheetSurvey "default".toList [("a".toList, o)] [])) "fr".toList
+            (path "/data/a".toList "label") "long".toList == some "Qfr".toList &&
+          valueAt (table (sheetSurvey "default".toList [("a".toList, o)] [])) "default".toList
+            (path "/data/a".toList "label") "long".toList == some "Q".toList
+        | _ => false)
+     | none => false) = true := by decide +kernel
 
 end Pyxv.C07Rows
